@@ -220,6 +220,95 @@ def c_case(shape, depth, stack, calls):
 
 
 # ---------------------------------------------------------------------------------------------
+# Model B': the real DynamicConstantProvider entry points on every class of value
+class _OpInt(int):
+    def __add__(self, other):
+        G.Adv.LOG.append("OpInt.__add__")
+        return 0
+
+    def __radd__(self, other):
+        G.Adv.LOG.append("OpInt.__radd__")
+        return 0
+
+    def __eq__(self, other):
+        G.Adv.LOG.append("OpInt.__eq__")
+        return True
+
+    def __hash__(self):
+        G.Adv.LOG.append("OpInt.__hash__")
+        return 1
+
+
+def provider_values():
+    """class name -> list of factories of fresh values of that class"""
+    return {
+        "VStr": [lambda: "ab", lambda: ""],
+        "VBytes": [lambda: b"ab"],
+        "VNum": [lambda: 3, lambda: 2.5],
+        "VSubStr": [lambda: G.make_op("opstr", "ab", "plain"), lambda: G.make_op("opstr", "A1", "raise"),
+                    lambda: G.make_op("opstrsw", "ab", "raise"), lambda: G.LoggingStr("ab")],
+        "VSubBytes": [lambda: G.make_op("opbytes", "ab", "plain"), lambda: G.make_op("opbytes", "b", "raise")],
+        "VSubNum": [lambda: _OpInt(3)],
+        "VOther": [lambda: G.AdvFull("raise", 1), lambda: ("a", "b"), lambda: None],
+    }
+
+
+def run_provider(entry, fa, fb, name="isalnum"):
+    """Call one real entry point on fresh values; returns (stored, user method ran, raised, log)."""
+    from pynguin.analyses.constants import ConstantPool, DynamicConstantProvider, EmptyConstantProvider
+
+    pool = ConstantPool()
+    dp = DynamicConstantProvider(pool, EmptyConstantProvider(), 0.5, 10)
+    a, b = fa(), fb()
+    G.Adv.LOG.clear()
+    raised = None
+    try:
+        if entry == "EAddValue":
+            dp.add_value(a)
+        elif entry == "EAddForStrings":
+            dp.add_value_for_strings(a, name)
+        else:
+            dp.add_concatenated_value(a, b)
+    except Exception as e:  # noqa: BLE001
+        raised = type(e).__name__
+    log = sorted(set(G.Adv.LOG))
+    G.Adv.LOG.clear()
+    import typing
+
+    from pynguin.analyses import constants as cmod
+
+    stored = any(len(pool.get_all_constants_for(t)) for t in typing.get_args(cmod.ConstantTypes))
+    return stored, bool(log), raised, log
+
+
+def provider_leg(ctx):
+    vals = provider_values()
+    cases, n_bad = [], 0
+    for entry in ("EAddValue", "EAddForStrings", "EAddConcat"):
+        for ca, fas in vals.items():
+            for cb, fbs in (vals.items() if entry == "EAddConcat" else [("VStr", vals["VStr"][:1])]):
+                for fa in fas:
+                    for fb in fbs:
+                        for name in (("isalnum", "islower", "isupper", "isdigit") if entry == "EAddForStrings" else ("",)):
+                            stored, usr, raised, log = run_provider(entry, fa, fb, name)
+                            ctx.count("provider:" + entry)
+                            cases.append(cpair(f"C01.{entry}", f"C01.{ca}", f"C01.{cb}",
+                                               cpair(cbool(stored), cbool(usr), cbool(raised is not None))))
+                            if usr or raised:
+                                n_bad += 1
+                                what = "raises:" + raised if raised else "user-method-called"
+                                ctx.fail(f"provider:{what}:{entry}",
+                                         f"DynamicConstantProvider.{entry} on ({ca}, {cb}) {'raised ' + raised if raised else ''} "
+                                         f"and invoked user-defined methods {log}; the instrumented code calls it with subject values",
+                                         {"entry": entry, "first": ca, "second": cb, "string_function": name, "log": log})
+    bad = ctx.run_cases("C01_provider", "From Verif Require Import Models.C01.", "C01.pvcase", "C01.check_pvcase", cases)
+    if bad and not n_bad:
+        ctx.broken("correspondence:provider-model", "the real DynamicConstantProvider stores/evaluates differently from the model "
+                   "(e.g. no longer records the concatenation of two plain strings)", {"case": cases[bad[0]]})
+    ctx.leg("K2-provider", cases=len(cases), user_code_invoked=n_bad, ok=not bad)
+
+
+# ---------------------------------------------------------------------------------------------
 # workers
 def _harvest(job):
     """Instrument one program under every metric subset; return snippet shapes + raw block kinds."""
@@ -321,7 +410,7 @@ def run(ctx: vlib.Ctx):
         ctx.coqchk()
     scratch = ctx.mkscratch()
     corpus = json.loads((vlib.VERIF / "corpus" / "C01.json").read_text())
-    n_prog = 14 if ctx.quick else 90
+    n_prog = 12 if ctx.quick else 90
     n_inp = 3 if ctx.quick else 6
     progs = [(c["src"], c.get("specs") or []) for c in corpus]
     for s in G.SEED_PROGRAMS:
@@ -414,6 +503,9 @@ def run(ctx: vlib.Ctx):
         ctx.broken("correspondence:placement", "BasicBlockNode.before/after/override disagree with the placement model",
                    {"case": pc[bad2[0]]})
     ctx.leg("K2", opcode_cases=len(cases), placement_cases=len(pc), ok=not bad and not bad2)
+
+    # --- K2c: provider entry points -------------------------------------------------------------
+    provider_leg(ctx)
 
     # --- S: differential oracle ------------------------------------------------------------------
     n_fail = 0
